@@ -289,3 +289,79 @@ Proof.
   - apply forallb_forall. intros o Ho. unfold ofile_okb.
     apply (snapshot_outputs_ok c09_max_index_entries (si_gen i) (si_snap i) o max_index_entries_pos Ho).
 Qed.
+
+(* ---------- a whole-series delete while the compaction runs ---------- *)
+
+Lemma file_values_delete_other k k' f :
+  key_eqb k k' = false -> file_values (delete_key k f) k' = file_values f k'.
+Proof.
+  intros E. unfold file_values, delete_key, apply_tombs. cbn [f_tombs f_data].
+  rewrite fold_left_app. cbn [fold_left fst snd]. rewrite E. reflexivity.
+Qed.
+
+Lemma sort_files_map_delete k l : sort_files (map (delete_key k) l) = map (delete_key k) (sort_files l).
+Proof.
+  assert (Hins : forall f l0, insert_file (delete_key k f) (map (delete_key k) l0) = map (delete_key k) (insert_file f l0)).
+  { intros f l0. induction l0 as [|g r IH]; cbn [map insert_file]; [reflexivity|].
+    change (fname (delete_key k f)) with (fname f). change (fname (delete_key k g)) with (fname g).
+    destruct (name_ltb (fname f) (fname g)); cbn [map]; [reflexivity|]. rewrite IH. reflexivity. }
+  induction l as [|f r IH]; cbn [map sort_files fold_right]; [reflexivity|].
+  fold (sort_files (map (delete_key k) r)). fold (sort_files r). rewrite IH. apply Hins.
+Qed.
+
+Lemma files_values_map_delete k k' l :
+  key_eqb k k' = false -> files_values (map (delete_key k) l) k' = files_values l k'.
+Proof.
+  intros E. unfold files_values. generalize (@nil tv).
+  induction l as [|f r IH]; intros acc; cbn [map fold_left]; [reflexivity|].
+  rewrite file_values_delete_other by assumption. apply IH.
+Qed.
+
+Lemma store_read_delete_other k k' fs c lo hi asc :
+  key_eqb k k' = false ->
+  store_read (map (delete_key k) fs) c k' lo hi asc = store_read fs c k' lo hi asc.
+Proof.
+  intros E. unfold store_read, read, read_all.
+  rewrite sort_files_map_delete, files_values_map_delete by assumption. reflexivity.
+Qed.
+
+Lemma drop_key_model_reads k fs1 fs2 c ks lo hi :
+  (forall k' lo hi asc, key_eqb k k' = false -> store_read fs1 c k' lo hi asc = store_read fs2 c k' lo hi asc) ->
+  drop_key k (model_reads fs1 c ks lo hi) = drop_key k (model_reads fs2 c ks lo hi).
+Proof.
+  intros H. unfold drop_key, model_reads. induction ks as [|h r IH]; cbn [map filter fst]; [reflexivity|].
+  destruct (key_eqb h k) eqn:E; cbn [negb]; [exact IH|].
+  rewrite IH. rewrite !H by (rewrite key_eqb_sym; assumption). reflexivity.
+Qed.
+
+Lemma names_sort_delete k fs : map fname (sort_files (map (delete_key k) fs)) = map fname (sort_files fs).
+Proof. rewrite sort_files_map_delete, map_map. reflexivity. Qed.
+
+Theorem link_delete_fail : forall i k, spec_delete i k (model_delete_fail i k) = true.
+Proof.
+  intros i k. unfold spec_delete, model_delete_fail, abort_compaction, dir_compacted, reopen.
+  cbn [do_err do_outs do_live do_tmp do_before do_after d_live d_tmp length N.eqb N.of_nat Nat.eqb].
+  unfold deleted_fs. rewrite names_sort_delete, names_eqb_refl.
+  rewrite (drop_key_model_reads k (ci_fs i) (map (delete_key k) (ci_fs i))).
+  - rewrite reads_eqb_refl. reflexivity.
+  - intros k' lo hi asc E. symmetry. apply store_read_delete_other. assumption.
+Qed.
+
+Theorem link_delete_ok : forall i k, spec_delete i k (model_delete_ok i k) = true.
+Proof.
+  intros i k. unfold spec_delete, model_delete_ok.
+  cbn [do_err do_outs do_live do_tmp do_before do_after N.eqb].
+  set (j := deleted_input i k). set (grp := ci_members j).
+  destruct (hyp_okb (deleted_fs i k) grp _) eqn:Eh; [|reflexivity]. cbn [negb orb].
+  unfold model_compact in *. cbn [co_outs co_after] in *. fold grp in Eh |- *.
+  rewrite model_ofiles_names in Eh.
+  destruct (hyp_okb_spec (ci_fs j) (ci_group j) _ Eh) as [Hnd Hgs Hw Hj].
+  apply andb_true_iff; split; [apply andb_true_iff; split|reflexivity].
+  - rewrite (drop_key_model_reads k (ci_fs i) (replace_files (ci_fs j) grp (compact (ci_size j) grp))).
+    + apply reads_eqb_refl.
+    + intros k' lo hi asc E. unfold compact.
+      rewrite (compact_reads c09_max_index_entries (ci_size j) (ci_fs j) grp Hnd (fun x => in_pick_group _ _ x) Hgs Hw Hj).
+      symmetry. apply store_read_delete_other. assumption.
+  - apply forallb_forall. intros o Ho. unfold ofile_okb.
+    apply (compact_outputs_ok c09_max_index_entries (ci_size j) grp o max_index_entries_pos Ho).
+Qed.
